@@ -992,6 +992,95 @@ def vc_series_defaults(fns, variants, work):
     return res
 
 
+def vc_closest_match_space(fns, variants, work):
+    """find_closest_match (hunk writer), for slices of ANY length: the outer range is exactly 0..(a.len + b.len), the inner one
+    0..min(i + 1, a.len); when the search is exhausted the result is (a.len, b.len) (everything left is flushed as changed);
+    a reported match (j, k) has j < a.len, k < b.len, j + k == i.  Loops are not unrolled to a bound here: at each loop head the
+    counter is replaced by an arbitrary value inside its range (over-approximates every iteration), then one step is followed."""
+    fn = find_fn(fns, r"(^|::)find_closest_match$")
+    found, reached = [], {"ranges": 0, "exhausted": 0, "match": 0}
+    ranges = []   # (site, end value) in construction order on the path
+
+    def lens(eng, st):
+        a = eng.read_path(st, "_1", eng.fn.types["_1"])
+        b = eng.read_path(st, "_2", eng.fn.types["_2"])
+        return eng.obj_len(st, a.target), eng.obj_len(st, b.target)
+
+    def on_agg(eng, st, tyname, dpath, site):
+        if "Range" not in tyname:
+            return
+        reached["ranges"] += 1
+        la, lb = lens(eng, st)
+        start = eng.read_path(st, dpath + ".0", "usize")
+        end = eng.read_path(st, dpath + ".1", "usize")
+        nth = sum(1 for t in st.ghost if t.startswith("rng:"))
+        st.ghost = st.ghost | {"rng:%d" % nth}
+        if nth == 0:
+            want, what = la + lb, "the outer search range is not 0..(a.len + b.len): matches further away are never looked for"
+        else:
+            i = st.store.get("ghost:i")
+            if i is None:
+                found.append({"bb": site, "stmt": tyname, "what": "inner range built before the outer counter was read", "model": {}, "trace": []})
+                return
+            want, what = z3.If(z3.ULE(i + 1, la), i + 1, la), "the inner search range is not 0..min(i + 1, a.len)"
+        c = z3.Or(start != 0, end != want)
+        ok, model = eng.feasible(st, [c])
+        eng.record_query("%s range %d" % (site, nth), list(st.pc) + [c])
+        if ok:
+            found.append({"bb": site, "stmt": tyname, "what": what, "model": model_values(model, ("in_", "len_", "c_", "hv_")), "trace": list(st.trace[-12:])})
+
+    def on_call(eng, st, bb, site, stmt, dst, callee, args, nxt):
+        if re.search(r"Range<usize> as Iterator>::next$", callee):
+            v, pth, ty = eng.operand(st, args[0])
+            if isinstance(v, Ref):
+                r = v.target
+                e0 = eng.read_path(st, r + ".1", "usize")
+                h = z3.BitVec("hv_%s_%d" % (site, eng.states), 64)
+                st.pc.append(z3.ULE(h, e0))
+                st.store[r + ".0"] = h          # any iteration of this loop
+                outer = "rng:1" not in st.ghost or bb == first_next[0]
+                if first_next[0] is None:
+                    first_next[0] = bb
+                if bb == first_next[0]:
+                    st.store["ghost:i"] = h
+                    st.ghost = frozenset(g for g in st.ghost if g != "rng:1")
+        return None
+
+    def on_return(eng, st, bb):
+        la, lb = lens(eng, st)
+        r0 = eng.read_path(st, "_0.0", "usize")
+        r1 = eng.read_path(st, "_0.1", "usize")
+        i = st.store.get("ghost:i")
+        exhausted = not any(re.search(r"PartialEq>::eq", t) for t in st.trace[-6:]) and "matched" not in st.ghost
+        if exhausted:
+            reached["exhausted"] += 1
+            c, what = z3.Or(r0 != la, r1 != lb), "search exhausted but the result is not (a.len, b.len): lines are left unwritten or written twice"
+        else:
+            reached["match"] += 1
+            c = z3.Or(z3.UGE(r0, la), z3.UGE(r1, lb)) if i is None else z3.Or(z3.UGE(r0, la), z3.UGE(r1, lb), r0 + r1 != i)
+            what = "a reported match lies outside the slices or off the diagonal being searched"
+        ok, model = eng.feasible(st, [c])
+        eng.record_query("%s return" % bb, list(st.pc) + [c])
+        if ok:
+            found.append({"bb": bb, "stmt": "return", "what": what, "model": model_values(model, ("in_", "len_", "c_", "hv_")), "trace": list(st.trace[-12:])})
+
+    def after_call(eng, st, bb, site, stmt, dst, callee, args, argv):
+        if re.search(r"as PartialEq>::eq$", callee):
+            st.ghost = st.ghost | {"eqseen"}
+
+    def on_stmt(eng, st, bb, s):
+        # the match return is the only place that builds _0 from locals other than the two lengths
+        if re.match(r"_0 = \(copy _\d+, move _\d+\)$", s):
+            st.ghost = st.ghost | {"matched"}
+
+    first_next = [None]
+    eng = Engine(fns, fn, variants, hooks={"on_call": on_call, "on_aggregate": on_agg, "on_return": on_return, "after_call": after_call, "on_stmt": on_stmt}, unroll=2)
+    eng.run()
+    ok_w = reached["ranges"] >= 2 and reached["exhausted"] > 0 and reached["match"] > 0
+    return summarize(eng, found, {"range_sites_reached": reached["ranges"], "exhausted_returns_reached": reached["exhausted"], "match_returns_reached": reached["match"]},
+                     work, "c12m", witness_ok=ok_w, witness_note="expected both ranges, an exhausted return and a match return: %r" % reached)
+
+
 def vc_unsafe_component_table(fns, variants, work):
     """is_unsafe's closure: a component is dangerous iff it is a Prefix, the root or '..' (std::path::Component's declaration
     order Prefix, RootDir, CurDir, ParentDir, Normal is the trusted fact behind the discriminant numbers)."""
